@@ -311,3 +311,42 @@ def rule_no_class_state(prog: Program, rep: Report, rule: str, classes: List[Cls
                               "resource: closing or clearing through one breaks the other", line=ln)
         else:
             rep.ok(rule, anchor, f"instance-state:{c.name}", f"{len(class_level)} class-level names, none is shared mutable state")
+
+
+
+def rule_snapshot(prog: Program, rep: Report, rule: str, c: Cls, declare: bool = True):
+    """an immutable structure is defined by what it was given at construction: it keeps no reference to the caller's container"""
+    if declare:
+        rep.rule(rule, f"{c.name} is defined by the content it was given at construction: the constructor stores no parameter as given "
+                 "(an alias of the caller's dict / list) in a field that other methods read later; what is kept is copied or derived",
+                 floor=1)
+    init = prog.resolve(c, "__init__")
+    if init is None or getattr(init.cls, "is_external", False):
+        return
+    rep.fn(init)
+    flow = Flow(init.node)
+    stores, inplace, loads = field_uses(c)
+    bad = None
+    n = 0
+    for t, v, st in iter_stores(init.node):
+        d = dotted(t)
+        if not (d and len(d) == 2 and d[0] == init.self_name) or v is None:
+            continue
+        n += 1
+        if isinstance(v, ast.Name) and v.id in init.params[1:] and flow.origin_is_param(v, v.id):
+            # scalars are fine; a container parameter is what matters: judged by its annotation when there is one
+            arg = next((a for a in init.node.args.posonlyargs + init.node.args.args + init.node.args.kwonlyargs if a.arg == v.id), None)
+            ann = src(arg.annotation) if arg is not None and arg.annotation is not None else ""
+            scalar = ann in ("int", "float", "str", "bool", "bytes") or ann.startswith(("Optional[int", "Optional[str", "Optional[float",
+                                                                                         "Optional[bool", "Callable", "Type["))
+            readers = [f for f, _ in loads.get(d[1], []) if f.name != "__init__"]
+            if not scalar and readers and ("Dict" in ann or "Mapping" in ann or "List" in ann or "Sequence" in ann or "Set" in ann
+                                           or "Iterable" in ann or "dict" in ann or "list" in ann):
+                bad = bad or (st, d[1], v.id, readers[0])
+    if bad:
+        st, fld, pname, reader = bad
+        rep.viol(rule, init, f"snapshot:{c.name}", f"the constructor keeps the caller's `{pname}` itself in self.{fld} and {reader.name}() "
+                 "reads it later: the structure changes when the caller clears, extends or reuses that container after construction",
+                 scenario=f"d = {{...}}; m = {c.name}(d); d.clear(); look-ups / iteration of m now see the cleared dict", line=st.lineno)
+    else:
+        rep.ok(rule, init, f"snapshot:{c.name}", f"{n} field stores in the constructor, none keeps a container parameter as given for later reads")
